@@ -643,7 +643,15 @@ def main():
         samples.append(dict(obligation=o.id, engine=o.engine, target=o.target, kind=o.kind, bound=o.bound,
                             result=results.get(o.id, {}).get("status", "not-run")))
     assumptions = registry_assumptions(prop)
-    level = "proof" if complete else "other"
+    # the level is the one claimed in MANIFEST.json (tools/propmeta.py): a property whose own functions are only covered by bounded
+    # obligations stays "other" even if the callee contracts in its check are complete proofs
+    try:
+        import propmeta
+        level = propmeta.META[prop]["category"]
+    except Exception:
+        level = "proof" if complete else "other"
+    if level == "proof" and not complete:
+        level = "other"
     ev = dict(
         property_id=prop, tier=tier, seed=seed, level=level,
         coverage=dict(
